@@ -566,7 +566,7 @@ class FnTranslator:
                 raise Unsupported(fdef, 'a generator that changes the object state')
         self.tparams = list(spec.get('tparams', (self.cls or {}).get('tparams', [])))
         self.deceq = list(spec.get('deceq', (self.cls or {}).get('deceq', [])))
-        self.inhab = list((self.cls or {}).get('inhabited', []))    # type variables that only need a default value
+        self.inhab = list(spec.get('inhabited', (self.cls or {}).get('inhabited', [])))    # type variables that only need a default value
         sentinels = list(spec.get('sentinels', (self.cls or {}).get('sentinels', [])))
         self.sentinels = []
         SENTINEL_NAMES.clear()
